@@ -132,6 +132,30 @@ def fam_regex(rng):
     ]
 
 
+def in_flag_strs(rng):
+    return [S("caaat baaad"), S("cAAat"), S("a  aa"), S("a\nb\na"), S(""), S("aaa")]
+
+
+def fam_regex_flag_pairs(rng):
+    """Neighbouring programs that differ in exactly one regex flag (or only in the regex), on inputs where every
+    flag matters: state kept from one regex call to the next (a cache keyed on less than everything that
+    influences compilation) shows as a difference between run orders."""
+    res = ["a+", "a +", "a.b", "^a", "a*?", "(a)|b"]
+    re_ = rng.choice(res)
+    base = rng.choice(["g", "", "gn"])
+    out = []
+    flags = list("gnixslmp")
+    rng.shuffle(flags)
+    for k, f in enumerate(flags):
+        fl = base.replace(f, "") if f in base else base + f
+        for flv in (base, fl):
+            # (the trailing identities only make the program texts distinct)
+            out.append(("state.regex-flags", in_flag_strs,
+                        '[.[] | try [match(%s; %s) | .string] catch "E"]%s' % (q(re_), q(flv), " | ." * k)))
+    out.append(("state.regex-flags", in_flag_strs, '[.[] | try [match(%s; %s) | .string] catch "E"]' % (q(rng.choice(res)), q(base))))
+    return out
+
+
 def fam_time(rng):
     f1, f2 = rng.choice(STRFTIME), rng.choice(STRFTIME)
     return [
@@ -298,7 +322,7 @@ def fam_core(rng):
     ]
 
 
-FAMILIES = [fam_regex, fam_time, fam_format, fam_bigint, fam_sort, fam_object, fam_string, fam_paths, fam_core]
+FAMILIES = [fam_regex, fam_regex_flag_pairs, fam_time, fam_format, fam_bigint, fam_sort, fam_object, fam_string, fam_paths, fam_core]
 # families whose natives look at files / the process environment (jiff's time zone database):
 # kept out of the Miri workload
 MIRI_AVOID = ("time.",)
